@@ -77,6 +77,25 @@ def trig_plain_{c}(wid=None, dur=None, **kw):
     vf.rec("mark", wid=wid, id=1)
     vf.rec("finish", wid=wid)
 
+@event_trigger("go_{c}_pair")
+@task_unique("n1")
+def trig_pair1_{c}(wid=None, dur=None, **kw):
+    vf.rec("start", wid=wid)
+    vf.rec("claimed", wid=wid, name="{c}:n1")
+    task.sleep(dur)
+    vf.rec("mark", wid=wid, id=1)
+    vf.rec("finish", wid=wid)
+
+@event_trigger("go_{c}_pair")
+@task_unique("n1")
+def trig_pair2_{c}(wid2=None, dur=None, **kw):
+    # a second function on the same event: both claim the name in the same instant
+    vf.rec("start", wid=wid2)
+    vf.rec("claimed", wid=wid2, name="{c}:n1")
+    task.sleep(dur)
+    vf.rec("mark", wid=wid2, id=1)
+    vf.rec("finish", wid=wid2)
+
 @event_trigger("go_{c}_km")
 @task_unique("n1", kill_me=True)
 def trig_km_{c}(wid=None, dur=None, **kw):
@@ -150,6 +169,9 @@ def generate(tier, seed, gated=frozenset()):
             at = rng.choice([0.0, 0.0, 0.0, 1.0, 1.0, 2.5, 4.0])
             if kind != "svc":
                 tasks.append({"wid": wid, "ctx": ctx, "kind": kind, "at": at, "dur": rng.choice([0.5, 2.0, 5.0])})
+                if kind == "dec_plain" and rng.random() < 0.5:
+                    # its twin is started by the very same event
+                    tasks.append({"wid": wid + 100, "ctx": ctx, "kind": "dec_twin", "at": at, "dur": tasks[-1]["dur"], "twin_of": wid})
                 continue
             ops = []
             for _ in range(rng.randint(1, 4)):
@@ -202,8 +224,12 @@ def run_case(case):
                     await w.hass.services.async_call("pyscript", f"snap_{c}", {"label": at}, blocking=True)
                 await w.hass.services.async_call("pyscript", "snap_m_a", {"label": at}, blocking=True)
                 continue
+            if t["kind"] == "dec_twin":
+                continue  # started by its twin's event
             if t["kind"] == "svc":
                 pending.append(w.loop.create_task(call(t)))
+            elif t["kind"] == "dec_plain" and any(x.get("twin_of") == t["wid"] for x in tasks):
+                w.hass.bus.async_fire(f"go_{t['ctx']}_pair", {"wid": t["wid"], "wid2": t["wid"] + 100, "dur": t["dur"]})
             else:
                 w.hass.bus.async_fire(f"go_{t['ctx']}_{'plain' if t['kind'] == 'dec_plain' else 'km'}", {"wid": t["wid"], "dur": t["dur"]})
         await w.at(14.0)
@@ -314,7 +340,7 @@ def run_case(case):
         wid = t["wid"]
         if t["kind"] == "svc" and wid not in killed and wid not in ended:
             viol.append({"mech": "innocent_task_did_not_finish", "msg": f"task {wid} was never displaced but did not finish: ops {t['ops']}"})
-        if t["kind"] == "dec_plain" and wid not in killed and wid not in ended and wid in serial_of:
+        if t["kind"] in ("dec_plain", "dec_twin") and wid not in killed and wid not in ended and wid in serial_of:
             viol.append({"mech": "innocent_task_did_not_finish", "msg": f"@task_unique function run {wid} never displaced but did not finish"})
     if final["name2task"] or final["task2name"]:
         viol.append({"mech": "name_not_released", "msg": f"after every task ended: unique_name2task={final['name2task']} unique_task2name={final['task2name']}"})
